@@ -55,6 +55,16 @@ fn verbose_ctrl_response_u8() -> DltMessage {
 
 fn main() {
     let which = std::env::args().nth(1).unwrap_or_default();
+    if which == "x3" {
+        use std::io::{Cursor, Read};
+        use adlt::utils::seekablechain::SeekableChain;
+        let vols: Vec<Cursor<Vec<u8>>> = vec![Cursor::new(b"ab".to_vec()), Cursor::new(vec![]), Cursor::new(b"cd".to_vec())];
+        let mut chain = SeekableChain::new(vols);
+        let mut out = vec![];
+        chain.read_to_end(&mut out).unwrap();
+        println!("chain of [ab, <empty>, cd] read_to_end = {:?} (concatenation is \"abcd\")", String::from_utf8_lossy(&out));
+        std::process::exit(if out == b"abcd" { 0 } else { 1 });
+    }
     if which == "b1_lc" {
         let first = msg(0, b"ECU1", 1000, 1000);
         let (out, _t) = run(vec![first, verbose_ctrl_response_u8()]);
